@@ -64,14 +64,14 @@ structure Core where
 deriving DecidableEq, Repr
 
 /-- number of positions `k` with `ran[k] = r` and `dom[k] = j` -/
-def countPair (r j : Nat) : List Nat → List Nat → Nat
+def countPair (r j : Nat) : List Nat → List Nat → Rat
   | a :: rs, b :: ds => (if a = r ∧ b = j then 1 else 0) + countPair r j rs ds
   | _, _ => 0
 
 /-- The explicit projection matrix with `n` columns: `P[ran[k], dom[k]] += 1`
     (what `scipy.sparse.coo_matrix((ones, (ran, dom)), shape=(range_size, n))` builds). -/
 def projMatrix (c : Core) (n : Nat) : Mat :=
-  (List.range c.ranSize).map (fun r => (List.range n).map (fun j => ((countPair r j c.ran c.dom : Nat) : Rat)))
+  (List.range c.ranSize).map (fun r => (List.range n).map (fun j => countPair r j c.ran c.dom))
 
 def maxL : List Nat → Option Nat
   | [] => none
@@ -320,6 +320,15 @@ def ewise (op : BinOp) (a b : Rat) : Except Err Rat :=
   | .pow => ratPow a b
   | .matmul => .error .unsupported
 
+/-- `mapM` in `Except`, written out (first error wins) -/
+def mapE {α β} (f : α → Except Err β) : List α → Except Err (List β)
+  | [] => .ok []
+  | a :: l => match f a with
+    | .error e => .error e
+    | .ok b => match mapE f l with
+      | .error e => .error e
+      | .ok bs => .ok (b :: bs)
+
 def zipWithM' (f : Rat → Rat → Except Err Rat) : Vec → Vec → Except Err Vec
   | a :: as, b :: bs => do
       let c ← f a b
@@ -333,8 +342,8 @@ def specLeft (op : BinOp) (a : Const) (z : DVal) : Except Err DVal :=
   -- number ∘ array: elementwise
   | .scal _, .matmul, _ => .error .unsupported
   | .scal s, op, .scal b => .scal <$> ewise op s b
-  | .scal s, op, .vec v => .vec <$> v.mapM (ewise op s)
-  | .scal s, op, .arr m X => .arr m <$> X.mapM (fun row => row.mapM (ewise op s))
+  | .scal s, op, .vec v => .vec <$> mapE (ewise op s) v
+  | .scal s, op, .arr m X => .arr m <$> mapE (fun row => mapE (ewise op s) row) X
   | .scal s, .mul, .sp m X => .ok (.sp m (X.map (fun row => row.map (s * ·))))
   | .scal s, .add, .ad v m J => .ok (.ad (v.map (s + ·)) m J)
   | .scal s, .sub, .ad v m J => .ok (.ad (v.map (s - ·)) m (J.map (fun row => row.map (fun x => -x))))
@@ -505,14 +514,20 @@ def Slicer.Good (S : Slicer) : Prop := S.core.Good ∧ ∀ s ∈ S.pending, s.Go
 
 def Env.Good (env : Env) : Prop := ∀ p ∈ env, p.2.Good
 
-/-- every slicer constructed by `new` in the program has a good geometry -/
+/-- 2-d data are rectangular: every row has the declared number of columns -/
+def DVal.Shaped : DVal → Prop
+  | .arr m X => ∀ row ∈ X, row.length = m
+  | .sp m X => ∀ row ∈ X, row.length = m
+  | .ad _ m J => ∀ row ∈ J, row.length = m
+  | _ => True
+
+def Val.Shaped (y : Val) : Prop := (obs y).Shaped
+
+/-- every slicer constructed by `new` in the program has a good geometry, every operand is rectangular -/
 def ProgGood : List Stmt → Prop
   | [] => True
   | .new _ d r rs ds :: ss => (∀ c, mkCore d r rs ds = .ok c → c.Good) ∧ ProgGood ss
+  | .apply _ y :: ss => y.Shaped ∧ ProgGood ss
   | _ :: ss => ProgGood ss
-
-/-- CSR storage is consistent: `indptr` non-decreasing, starting at 0 is not needed, last pointer within the arrays -/
-def Csr.WF (A : Csr) : Prop :=
-  A.indptr.Pairwise (· ≤ ·) ∧ (∀ p ∈ A.indptr, p ≤ A.indices.length) ∧ A.indices.length = A.data.length
 
 end PorepyVerif.C36
